@@ -766,7 +766,7 @@ package flamego
 //@ func (*Route).Headers
 //@   props C09 C10
 //@   requires routeObjWF(r) && routerWF(r.router) && treeWF() && (forall m string :: r.router.staticRoutes[m] != r.leaves)
-//@   modifies route.baseLeaf.headerMatcher, maps(type(map[string]route.Leaf)), route.Route.str, route.Route.strOnce.fired
+//@   modifies route.baseLeaf.headerMatcher, maps(type(map[string]route.Leaf)), route.Route.str, route.Route.strOnce.fired, route.Segment.str, route.Segment.strOnce.fired
 //@   panics true
 //@   ensures result == r && routerWF(r.router) && treeWF()
 //@   ensures forall m string :: has(r.leaves, m) ==> leafBase(r.leaves[m]).headerMatcher != nil && fresh(leafBase(r.leaves[m]).headerMatcher)
